@@ -28,9 +28,11 @@ writer in flight re-reads `file`.  An in-memory dictionary has `fileBacked = fal
 no snapshot, `flush`/`reopen` do nothing.
 
 `add_phrase`/`update_phrase` erase the tombstone of the key they insert (fix 20fd01a, F09).  A pending
-entry replaces the persisted entry of the same key in `entries()` and — keyed by the query — in lookups
-(fix 8e6d504, F10); a lookup scans all pending phrases of the query's syllables (fix 2c45871,
-MaxCodePointPhrase).
+entry replaces the persisted entry of the same key in `entries()` and — keyed by the query — in exact
+lookups (fix 8e6d504, F10); an exact lookup scans all pending phrases of the query's syllables (fix
+2c45871, MaxCodePointPhrase).  A *prefix* lookup (`FuzzyPartialPrefix`) is answered from the merged view
+of `entries()` filtered by the per-syllable match (fix 097161a, F36) — before that fix it scanned the
+persisted leaves only and applied the pending / tombstone filters keyed by the QUERY.
 -/
 namespace Chewing
 open MapSpec
@@ -165,20 +167,6 @@ def btreeRange (bt : List (PKey × Val)) (k : Key) : List Phrase :=
 /-- `self.btree.contains_key(&key)` -/
 def btHas (bt : List (PKey × Val)) (k : PKey) : Bool := bt.any (fun e => e.1 == k)
 
-/-- `entries_iter_for`: snapshot lookup minus the phrases that have a pending entry *keyed by the query*
-    (fix 8e6d504, F10: a pending entry replaces the persisted one), then the pending range, minus
-    tombstones *keyed by the query* -/
-def entriesIterFor (s : State) (k : Key) (st : Strategy) : List Phrase :=
-  ((Trie.lookupAll s.snap k st).filter (fun p => !(btHas s.btree (k, p.text))) ++ btreeRange s.btree k).filter
-    (fun p => !(s.grave.contains (k, p.text)))
-
-/-- `lookup_all_phrases` -/
-def lookupAll (s : State) (k : Key) (st : Strategy) : List Phrase := dedup (entriesIterFor s k st)
-
-/-- `lookup_first_n_phrases` -/
-def lookupFirstN (s : State) (k : Key) (n : Nat) (st : Strategy) : List Phrase :=
-  (dedup (entriesIterFor s k st)).take n
-
 def btEntries (bt : List (PKey × Val)) : List Entry := bt.map (fun e => (e.1.1, mkPhrase e.1.2 e.2))
 
 /-- `entries_iter`: snapshot entries that have no pending entry of the same key (fix 8e6d504, F10), then
@@ -186,6 +174,31 @@ def btEntries (bt : List (PKey × Val)) : List Entry := bt.map (fun e => (e.1.1,
 def entries (s : State) : List Entry :=
   ((Trie.entries s.snap).filter (fun e => !(btHas s.btree (e.1, e.2.text))) ++ btEntries s.btree).filter
     (fun e => !(s.grave.contains (e.1, e.2.text)))
+
+/-- `entries_iter_for`.
+
+    *Exact* strategy: snapshot lookup minus the phrases that have a pending entry *keyed by the query*
+    (fix 8e6d504, F10: a pending entry replaces the persisted one), then the pending range, minus
+    tombstones *keyed by the query* — for an exact lookup the query IS the key of every candidate.
+
+    *Prefix* strategy (fix 097161a, F36): the merged view `entries_iter()` — every filter keyed by the
+    ENTRY's own key — restricted to the keys that match the query per syllable
+    (`key.len() == query.len() && zip.all(starts_with)`; a `Vec<Syllable>` holds `NonZeroU16`s, so the
+    `n == 0` guard `Trie`'s predicate carries — and `fuzzyMatch` with it — is vacuous here), phrases only.
+    The persisted candidates come in the order of `Trie::entries()`; restricted to keys of ONE length that
+    is the file order the model's `Trie.entries` lists (`C09.fuzzy_order_is_file_order`). -/
+def entriesIterFor (s : State) (k : Key) : Strategy → List Phrase
+  | .standard =>
+    ((Trie.lookupAll s.snap k .standard).filter (fun p => !(btHas s.btree (k, p.text))) ++ btreeRange s.btree k).filter
+      (fun p => !(s.grave.contains (k, p.text)))
+  | .fuzzyPartialPrefix => ((entries s).filter (fun e => Trie.fuzzyMatch e.1 k)).map (·.2)
+
+/-- `lookup_all_phrases` -/
+def lookupAll (s : State) (k : Key) (st : Strategy) : List Phrase := dedup (entriesIterFor s k st)
+
+/-- `lookup_first_n_phrases` -/
+def lookupFirstN (s : State) (k : Key) (n : Nat) (st : Strategy) : List Phrase :=
+  (dedup (entriesIterFor s k st)).take n
 
 /-- `BTreeMap::insert` -/
 def btInsert (bt : List (PKey × Val)) (k : PKey) (v : Val) : List (PKey × Val) :=
